@@ -178,7 +178,7 @@ func execGBatch(sc *GBatchSc, choose chooser) (GBatchObs, []string) {
 		nodes: map[int]flyt.Node{}, rts: map[int]*nodeRT{}, valueNodes: map[int]*leafImpl{}}
 	rt := &nodeRT{env: e, id: 0, visit: -1}
 	g := &gateCtl{parked: map[[2]int]chan struct{}{}}
-	b := &batchImpl{rt: rt, cfg: &cfg, attempts: map[[2]int]int{}, itemTok: map[int][]int{}, gate: g.gate}
+	b := &batchImpl{rt0: rt, cfg: &cfg, gate: g.gate}
 	node := e.buildBatchWith(b)
 	e.nodes[0] = node
 	if sc.Procs > 0 {
@@ -212,10 +212,8 @@ func execGBatch(sc *GBatchSc, choose chooser) (GBatchObs, []string) {
 			node.WithBatchErrorHandling(!sc.Stop)
 		}
 		// fresh per-run bookkeeping for the gated run
-		b.mu.Lock()
-		b.attempts = map[[2]int]int{}
-		b.mu.Unlock()
 		rt.mu.Lock()
+		rt.battempts = map[[2]int]int{}
 		rt.visit = -1
 		rt.mu.Unlock()
 		gateOn = true
